@@ -151,6 +151,42 @@ def xcfg(tier):
     return o
 
 
+# ------------------------------------------------------------------------------------------------ url_aggregator steps
+from engine import STR_REPLACE, STR_STUBS  # noqa
+
+STEP_OPS = [
+    # name, root, value lengths (quick, thorough), defs
+    ("clear_port", "vk_st_clear_port", (0,), (0,), {"OP_CLEAR_PORT": 1}),
+    ("clear_search", "vk_st_clear_search", (0,), (0,), {"OP_CLEAR_SEARCH": 1}),
+    ("clear_hash", "vk_st_clear_hash", (0,), (0,), {"OP_CLEAR_HASH": 1}),
+    ("set_username", "vk_st_set_username", (0, 1), (0, 1, 2), {"OP_SET_USERINFO": "F_USER"}),
+    ("set_password", "vk_st_set_password", (0, 1), (0, 1, 2), {"OP_SET_USERINFO": "F_PASS"}),
+    ("set_port", "vk_st_set_port", (0, 2), (0, 1, 2, 3, 5), {"OP_SET_PORT": 1}),
+    ("set_search", "vk_st_set_search", (0, 2), (0, 1, 2, 3), {"OP_SET_QF": "F_SEARCH"}),
+    ("set_hash", "vk_st_set_hash", (0, 2), (0, 1, 2, 3), {"OP_SET_QF": "F_HASH"}),
+    ("set_pathname", "vk_st_set_pathname", (0, 2), (0, 1, 2, 3), {"OP_SET_PATHNAME": 1}),
+    ("set_protocol", "vk_st_set_protocol", (2, 3), (0, 1, 2, 3, 4, 5), {"OP_SET_PROTOCOL": 1}),
+]
+
+
+def steps(tier, ops=None, with_limit=False, tag=""):
+    o = []
+    for name, root, qm, tm, defs in STEP_OPS:
+        if ops and name not in ops:
+            continue
+        for n in lens(tier, (9,), (6, 8, 10, 12)):
+            for m in lens(tier, qm, tm):
+                d = {"N": n, "M": m, "BN": 15, "KERNEL": "F_" + root}
+                d.update(defs)
+                stubs = list(STR_STUBS)
+                if with_limit:
+                    d["WITH_LIMIT"] = 1
+                    stubs.append("_ZN3ada20get_max_input_lengthEv")
+                o.append(Obl(f"step{tag}_{name}_n{n}_m{m}", "step.c", [U(root, stubs=stubs)], defs=d, unwind=17,
+                             maxcpy=16, mem_gb=16, timeout=(600 if tier == Q else 1800), weight=10 + m))
+    return o
+
+
 # ------------------------------------------------------------------------------------------------ properties
 def for_property(pid, tier):
     f = globals().get("prop_" + pid)
@@ -179,6 +215,10 @@ def prop_C11(tier):
 
 def prop_C18(tier):
     return xcfg(tier) + ipv4_kernels(tier, "avx512", "_avx512")
+
+
+def prop_C07(tier):
+    return steps(tier)
 
 
 def prop_C01(tier):
